@@ -100,12 +100,63 @@ def check_better(ctx, fn, strict: bool, label: str):
         ctx.ok("C13.better", fn, f"{label}: {n} truth-table rows agree with the replacement rule ({'strict <' if strict else '<='} on size)")
 
 
+def _archive_aliasing(ctx, repo) -> None:
+    """Search operators that change test cases in place (local search) get clones of the archived solutions: a
+    function that runs local search on data derived from `<archive>.solutions` passes every solution through
+    clone() first (taint from the archive, cleared by .clone())."""
+    n = 0
+    for mod, qn, fn in repo.all_functions("pynguin.ga.algorithms"):
+        ls_calls = [c for c in own_nodes(fn) if isinstance(c, ast.Call) and last_attr(c) == "local_search" and c.args]
+        reads = [x for x in own_nodes(fn) if isinstance(x, ast.Attribute) and x.attr == "solutions" and "archive" in norm(x.value)]
+        if not ls_calls or not reads:
+            continue
+        ctx.analysed(fn)
+        tainted: set[str] = set()
+
+        def is_tainted(e) -> bool:
+            if isinstance(e, ast.Call) and isinstance(e.func, ast.Attribute) and e.func.attr == "clone":
+                return False  # a clone is the caller's own object
+            if isinstance(e, ast.Attribute) and e.attr == "solutions" and "archive" in norm(e.value):
+                return True
+            if isinstance(e, ast.Name):
+                return e.id in tainted
+            return any(is_tainted(c) for c in ast.iter_child_nodes(e))
+
+        changed = True
+        while changed:
+            changed = False
+            for st in own_nodes(fn):
+                new = None
+                if isinstance(st, ast.For) and is_tainted(st.iter):
+                    new = {x.id for x in ast.walk(st.target) if isinstance(x, ast.Name)}
+                elif isinstance(st, (ast.Assign, ast.AnnAssign)) and st.value is not None and is_tainted(st.value):
+                    tgts = st.targets if isinstance(st, ast.Assign) else [st.target]
+                    new = {x.id for t in tgts for x in ast.walk(t) if isinstance(x, ast.Name)}
+                elif isinstance(st, ast.Call) and isinstance(st.func, ast.Attribute) and st.func.attr in ("add", "append", "extend", "update", "add_test_case_chromosome") and isinstance(st.func.value, ast.Name) and any(is_tainted(a) for a in st.args):
+                    new = {st.func.value.id}
+                elif isinstance(st, (ast.ListComp, ast.GeneratorExp, ast.SetComp)):
+                    for g in st.generators:
+                        if is_tainted(g.iter):
+                            new = (new or set()) | {x.id for x in ast.walk(g.target) if isinstance(x, ast.Name)}
+                if new and not new <= tainted:
+                    tainted |= new
+                    changed = True
+        for c in ls_calls:
+            bad = [norm(a) for a in c.args if is_tainted(a)]
+            n += 1
+            ctx.check("C13.aliasing", c, not bad, f"{mod.name}:{qn}: local search runs on `{bad}`, which holds the archive's own solutions (no clone() on the way from `{norm(reads[0])}`): local search edits the archived test cases in place - an archived solution changes without being a legal replacement and may stop covering its goal", what=f"{qn}: local search works on clones of the archived solutions", stmt=f"[{qn}] local search operands")
+    if n == 0:
+        raise AnalysisError("C13.aliasing: no function runs local search on archived solutions (DynaMOSAAlgorithm.local_search)")
+
+
 def check(ctx) -> None:
     repo = ctx.repo
     ctx.rule("C13.writers", "WHO-MAY: CoverageArchive._covered is written only by update (insert) and reset (clear); reset has no caller on the search path; _uncovered shrinks only together with the insert", floor=3)
     ctx.rule("C13.guard", "GUARD-DOM: the insert into _covered is dominated by `covers and (best is None or _is_better_than_current(best, solution))` for the same objective/solution", floor=3)
     ctx.rule("C13.better", "ABSINT/prop: _is_better_than_current is, for all 192 states of its atoms, 'error-free where the current is not, or (strictly) shorter'", floor=2)
     ctx.rule("C13.mio-cap", "MIO: _solutions grows only under `len < capacity` or after capacity:=1 + clear; a covered population never changes its capacity; is_covered requires exactly one solution", floor=5)
+    ctx.rule("C13.aliasing", "TAINT: archived solutions reach an in-place search operator (local search) only through clone()", floor=1)
+    _archive_aliasing(ctx, repo)
     ctx.rule("C13.goals", "DynaMOSA goal manager re-adds every uncovered current goal and adds children only of covered goals", floor=2)
 
     ca = repo.cls(AR, "CoverageArchive")
